@@ -35,6 +35,8 @@ type stats struct {
 	Txs              int            `json:"transactions_included"`
 	Dropped          int            `json:"transactions_dropped_by_proposer"`
 	Restarts         int            `json:"restarts"`
+	RootsChecked     int            `json:"committed_state_roots_compared_with_header"`
+	RestartedRounds  int            `json:"rounds_restarted_between_validation_and_commit"`
 	Specul           int            `json:"discarded_speculative_validations"`
 	Archive          int            `json:"heights_revalidated_from_archive"`
 	Unusual          int            `json:"unusually_encoded_transactions_offered"`
@@ -71,8 +73,22 @@ func reportOf(n *sim.CNode, h uint64) report {
 	if qc != nil {
 		rh = qc.ResultsHash
 	}
+	// the state committed with the block is the state the header names
+	if st0, ok := n.C.FSM.Store().(lib.StoreI); ok {
+		if ro, e := st0.NewReadOnly(st0.Version()); e == nil {
+			st.RootsChecked++
+			if root, e2 := ro.Root(); e2 == nil && !bytes.Equal(root, blk.BlockHeader.StateRoot) {
+				sim.Direct(outDirG, map[string]any{"finding": "committed-state-is-not-the-block-state", "kind": "the state root committed with a block differs from the state root in its header",
+					"height": h, "header_root": sim.Hex(blk.BlockHeader.StateRoot), "committed_root": sim.Hex(root)})
+			}
+			ro.Discard()
+		}
+	}
 	return report{blk.BlockHeader.Hash, blk.BlockHeader.StateRoot, rh, nil}
 }
+
+var outDirG = "."
+
 
 var smallBlocks = os.Getenv("VERIF_SMALL_BLOCKS") != "0"
 
@@ -83,6 +99,7 @@ func main() {
 	prop := flag.Int("prop", 0, "3: the execution paths only; 11 (or 0): also fresh nodes syncing from the archive")
 	_ = flag.String("replay", "", "replay file (cases regenerate deterministically from the seed)")
 	flag.Parse()
+	outDirG = *outDir
 	r := sim.NewRng(sim.SeedFromEnv())
 	cw := &sim.CaseWriter{OutDir: *outDir, Name: "c03", Imports: "From V Require Import Paths.", CaseType: "path_case", MFun: "path_mismatches", VFun: "path_violations", PerShard: 200}
 	for c := 0; c < *nChains; c++ {
@@ -289,6 +306,15 @@ func main() {
 							break
 						}
 						n.C.Consensus.BlockResult = res
+						if n != leader && r.Chance(30) {
+							// a root-chain update restarts the rounds before the commit arrives (NewHeight(true) -> NewRound(true)); the
+							// replica is elected for the new round 0, holds no lock and builds a proposal of its own (ProduceProposal
+							// ends by resetting the state machine). The block it had validated is then committed by the others and
+							// reaches it as a peer block: what it commits must be that block's state
+							n.C.Consensus.NewRound(true)
+							_, _, _, _ = n.C.ProduceProposal(sim.NoEvidence(), nil)
+							st.RestartedRounds++
+						}
 						if err := n.Deliver(sim.CloneQC(qc), false); err != nil {
 							fail(fmt.Sprintf("commit-cached-node%d", i), err)
 							ok = false
